@@ -366,6 +366,13 @@ class Fn:
         if kinds == {"int", "double"} or kinds == {"nat", "double"}:
             return self.coerce(a, ta, DBL), self.coerce(b, tb, DBL), DBL
         if kinds == {"int", "nat"}:
+            # a non-negative integer literal takes the unsigned type of the other operand
+            lit_a = re.match(r"^\((\d+) : Int\)$", a) if ta.kind == "int" else None
+            lit_b = re.match(r"^\((\d+) : Int\)$", b) if tb.kind == "int" else None
+            if lit_a:
+                return "(%s : Nat)" % lit_a.group(1), b, NAT
+            if lit_b:
+                return a, "(%s : Nat)" % lit_b.group(1), NAT
             raise self.R("mixed signed/unsigned operands of `%s` (%s, %s): C++ converts to unsigned — refused" % (op, a, b))
         if kinds == {"bool", "int"}:
             return self.coerce(a, ta, INT), self.coerce(b, tb, INT), INT
@@ -560,7 +567,10 @@ class Parser(Fn):
                 lines.append((0, "let mut %s : %s := %s" % (ln, lt, e)))
             else:
                 ln = self.declare(name, ty, True, False)
-                lines.append((0, "let mut %s : %s := default   -- declared without initialiser; never read before assignment (checked by the translator)" % (ln, lt)))
+                dflt = "(Cxx.Ring.ofInt 0 : R)" if ty.kind == "double" else "default"
+                if ty.kind == "double":
+                    self.want("Ring")
+                lines.append((0, "let mut %s : %s := %s   -- declared without initialiser; never read before assignment (checked by the translator)" % (ln, lt, dflt)))
             if self.at(","):
                 self.eat(",")
                 continue
@@ -1014,6 +1024,8 @@ class Parser(Fn):
             if op == "-" and not self.f.get("nat_sub_ok"):
                 raise self.R("subtraction on unsigned values (%s - %s): C++ wraps, Nat truncates — refused (spec flag nat_sub_ok)" % (ea, eb))
             return "(%s %s %s)" % (ea, op, eb), NAT
+        if ty.kind == "bool" and op in ("+", "-", "*"):          # integral promotion of bool operands
+            return "(%s %s %s)" % (self.coerce(ea, BOOL, INT), op, self.coerce(eb, BOOL, INT)), INT
         raise self.R("arithmetic `%s` on %r" % (op, ty))
 
     def unary(self):
@@ -1130,6 +1142,8 @@ class Parser(Fn):
         # strip trailing zeros of the mantissa so that 1.0 becomes ofInt 1
         while mant != 0 and mant % 10 == 0 and ex < 0:
             mant //= 10; ex += 1
+        if mant == 0:
+            ex = 0
         if ex >= 0 and ex <= 18:
             self.want("Ring")
             return "(Cxx.Ring.ofInt %d : R)" % (mant * 10 ** ex), DBL
@@ -1234,6 +1248,9 @@ class Parser(Fn):
 
     def call(self, name):
         args = self.args()
+        _cfg = self.spec.get("calls", {})
+        if name in _cfg or name.split("::")[-1] in _cfg:
+            return self.configured_call(name, args)
         if name in ("std::min", "std::max"):
             if len(args) != 2:
                 raise self.R("%s with %d arguments" % (name, len(args)))
@@ -1265,6 +1282,9 @@ class Parser(Fn):
             self.want("Math")
             fn = "Cxx.Math.isNaN" if name.endswith("nan") else "Cxx.Math.isFinite"
             return "(%s %s)" % (fn, self.coerce(args[0][0], args[0][1], DBL)), BOOL
+        return self.configured_call(name, args)
+
+    def configured_call(self, name, args):
         calls = self.spec.get("calls", {})
         d = None
         for key in (name, name.split("::")[-1]):
@@ -1312,6 +1332,8 @@ def indent(lines, n=1):
 # ------------------------------------------------------------------------------------------------- driver
 def translate_function(spec, f, repo):
     src = read_source(repo, f["file"])
+    if "preprocess" in spec:                       # e.g. drop `#if GEOS_DEBUG … #endif` blocks after checking what they contain
+        src = spec["preprocess"](f["file"], src)
     names, body = find_function(src, f["name"], f["params"], f["file"], f["class"]) if f.get("class") else find_function(src, f["name"], f["params"], f["file"])
     toks = tokenize(body, f["name"])
     ps = spec.get("parser_class", Parser)(spec, f, repo, toks, None)     # a spec may subclass Parser to extend the fragment
